@@ -9,7 +9,7 @@ history (`script` = ops joined by `,`, fields of an op joined by `.`); the reply
 * `hash <hex>`                                         → `ok <u32>`            (`lyht_hash`)
 * `fixed <n>`                                          → `ok <u32>`            (`lyht_get_fixed_size`)
 * `hist <size> <resize> <ve> <rve|-> <cve|-> <script>` → `ok <tok>*`  ops `i/j/n/m/r/f/x.<hash>.<val>`, `D`, `R`
-* `dict <size> <mask> <script>` (`dictf`: with fixes/F50.diff) → `ok <tok>*`  ops `i.<hex>.<len>.<alias>`, `z.<hex>`,
+* `dict <size> <mask> <script>` (`dictf`: with fixes/F110.diff) → `ok <tok>*`  ops `i.<hex>.<len>.<alias>`, `z.<hex>`,
                                                          `r.<hex>`, `d.<hex>.<alias>`, `D`
 
 `hist` runs the L1 model and, in lockstep, the L2 model; a difference between `toL2` of the L1 state and the L2
@@ -179,7 +179,7 @@ def handle (op : String) (args : List String) : String :=
     match size.toNat?, mask.toNat? with
     | some s, some m => "ok " ++ " ".intercalate (runDict false s (UInt32.ofNat m) (script.splitOn ","))
     | _, _ => "err BadArg"
-  | "dictf", [size, mask, script] =>      -- dict.c with fixes/F50.diff applied
+  | "dictf", [size, mask, script] =>      -- dict.c with fixes/F110.diff applied
     match size.toNat?, mask.toNat? with
     | some s, some m => "ok " ++ " ".intercalate (runDict true s (UInt32.ofNat m) (script.splitOn ","))
     | _, _ => "err BadArg"
